@@ -17,7 +17,7 @@ import vlib
 WORKER = os.path.join(vlib.ROOT, "tools", "hist_worker.py")
 POOL = [("multi_custom", None), ("ew_dag", None), ("lut_heavy", None), ("single:logistic", None), ("single:tanh", None), ("single:lrelu", None), ("single:hswish", None),
         ("conv_chain", None), ("diamond", None), ("mixed_cpu", None), ("single:conv", None), ("single:add", None),
-        ("single:softmax", None), ("conv_chain_big", None), ("single:pad_bc", None), ("single:pad", None), ("lut_mixed", None), ("single:fc", None), ("single:mean", None)]
+        ("single:softmax", None), ("conv_chain_big", None), ("single:pad_bc", None), ("single:pad", None), ("lut_mixed", None), ("multi_input", None), ("siamese", None), ("single:fc", None), ("single:mean", None)]
 ACCS = ["ethos-u65-256", "ethos-u55-128", "ethos-u65-512", "ethos-u55-64"]
 
 
@@ -65,8 +65,14 @@ def run(tier):
     nh = 14 if tier == "quick" else 300
     histories = []
     # corpus-style fixed shapes first: A;A, A;B;A, mixed entry points, mixed accelerators
-    def st(fam, sd, acc=None, entry="main"):
-        return {"family": fam, "seed": "c14-%s" % sd, "args": (["--accelerator-config", acc] if acc else []) if entry == "main" else [], "entry": entry}
+    def st(fam, sd, acc=None, entry="main", extra=()):
+        return {"family": fam, "seed": "c14-%s" % sd,
+                "args": ((["--accelerator-config", acc] if acc else []) + list(extra)) if entry == "main" else [], "entry": entry}
+    # every tensor allocator on networks whose live ranges tie (several equal graph inputs used by one operator)
+    for alloc in ("Greedy", "LinearAlloc", "HillClimb"):
+        ex = ["--tensor-allocator", alloc]
+        histories.append([st("multi_input", 1, "ethos-u55-128", extra=ex), st("multi_input", 2, "ethos-u55-128", extra=ex),
+                          st("multi_input", 1, "ethos-u55-128", extra=ex), st("multi_input", 1, "ethos-u55-128", extra=ex)])
     histories.append([st("multi_custom", 1), st("multi_custom", 2), st("multi_custom", 1, entry="convert_bytes")])
     histories.append([st("lut_heavy", 1), st("lut_heavy", 1)])
     histories.append([st("lut_heavy", 1), st("lut_heavy", 2), st("lut_heavy", 1), st("lut_heavy", 1, entry="convert"), st("lut_heavy", 1, entry="convert_bytes")])
@@ -85,7 +91,9 @@ def run(tier):
             sd = rng.randrange(1, 5)
             entry = rng.choice(["main", "main", "main", "convert", "convert_bytes", "convert_bytes_ro"])
             acc = rng.choice(ACCS + [None]) if entry == "main" else None
-            h.append(st(fam, sd, acc, entry))
+            extra = rng.choice([(), (), ("--tensor-allocator", "Greedy"), ("--tensor-allocator", "LinearAlloc"),
+                                ("--optimise", "Size"), ("--cpu-tensor-alignment", "64")]) if entry == "main" else ()
+            h.append(st(fam, sd, acc, entry, extra))
         if rng.random() < 0.5:
             h.append(dict(rng.choice(h)))      # repeat something already compiled in this process
         histories.append(h)
